@@ -286,3 +286,13 @@ func RunNative(fn func()) (failures []string, escaped interface{}, diverged stri
 	defer mu.Unlock()
 	return append([]string(nil), Failures...), escaped, Diverged
 }
+
+// AnyStringAtom is an arbitrary string out of an alphabet of k opaque atoms
+// (none of which starts with "+ " or "- " or occurs in concrete strings).
+func AnyStringAtom(name string, k int) string {
+	id := nextInt(name)
+	return string([]byte{1, byte('a' + id)})
+}
+
+// Iff is logical equivalence (term builder).
+func Iff(a, b bool) bool { return a == b }
